@@ -48,7 +48,7 @@ pub fn def() -> PropDef {
             "clone only with no placeholder pending",
         ],
         exhaustive_note: None,
-        shards: |t: Tier| t.pick(8, 16),
+        shards: |_t: Tier| 16,
         run,
         replay,
     }
